@@ -149,6 +149,10 @@ def run(tier, seed):
         plan.append(("thr", ["refcount", nt, 1000000 // max(1, nt // 4) if q else 4000000, 1 + i % 4], None, ""))
     for i in range(10 if q else 60):
         plan.append(("thr", ["release", [2, 3, 4, 8, 16][i % 5], 20000 if q else 200000], None, ""))
+    for i in range(8 if q else 40):
+        # container mode (4th argument 2): all holders but one keep their reference inside an array / object of their own and release the container
+        plan.append(("thr", ["release", [2, 3, 4, 8][i % 4], 20000 if q else 200000, 2], None, ""))
+    plan += [("tsan", ["release", 2, 3000 if q else 40000, 2], None, ""), ("tsan_ndebug", ["release", 4, 2000 if q else 30000, 2], None, "")]
     plan.append(("thr", ["readers", 12, 300000], None, ""))
     for i in range(300 if q else 20000):
         nt = [2, 4, 8, 16][i % 4]
